@@ -118,7 +118,22 @@ pub fn exercise(bytes: &[u8], tolerant: bool, cached: bool, password: &[u8]) -> 
                 if let Some(c) = page.contents.as_ref() {
                     o.rec(&format!("{}.operations", tag), guarded(|| c.operations(&r).map(|ops| ops.iter().filter(|op| matches!(op, Op::InlineImage { .. })).count())));
                 }
-                o.rec(&format!("{}.annotations", tag), guarded(|| page.annotations.load(&r).map(|a| a.len())));
+                if let Some(annots) = o.rec(&format!("{}.annotations", tag), guarded(|| page.annotations.load(&r).map(|a| (*a).clone()))) {
+                    // the appearance streams of each annotation: lazy references, followed by the caller
+                    for (k, a) in annots.iter().take(8).enumerate() {
+                        if let Some(ap) = a.appearance_streams.as_ref() {
+                            let entries = [("N", Some(ap.normal)), ("R", ap.rollover), ("D", ap.down)];
+                            for (kind, e) in entries {
+                                if let Some(e) = e {
+                                    o.rec(&format!("{}.annot[{}].AP.{}", tag, k, kind), guarded(|| r.get(e).map(|x| match &*x {
+                                        pdf::object::AppearanceStreamEntry::Single(f) => f.operations(&r).map(|ops| ops.len()).unwrap_or(0),
+                                        pdf::object::AppearanceStreamEntry::Dict(d) => d.len(),
+                                    })));
+                                }
+                            }
+                        }
+                    }
+                }
             }
         }
         o.rec_plain("pages()", guarded(|| f.pages().take(60).filter(|p| p.is_ok()).count()));
